@@ -689,6 +689,10 @@ TOP:
 			}
 		case method != nil:
 			args := root.formReflectArgs(ov, vars, field)
+			if err = checkReflectArgs(method, args); err != nil {
+				ea = append(ea, resWarn(field.line, field.col, "%s", err))
+				return
+			}
 			mva := fd.method.Call(args)
 			switch len(mva) {
 			case 1:
@@ -714,13 +718,61 @@ func (root *Root) formReflectArgs(ov reflect.Value, vars map[string]interface{},
 	// Build the args by combining provided args and variable values as
 	// appropriate.
 	for _, av := range field.orderedArgs() {
-		if vr, ok := av.Value.(Var); ok && vars != nil {
+		if av == nil { // not provided
+			args = append(args, reflect.Value{})
+		} else if vr, ok := av.Value.(Var); ok && vars != nil {
 			args = append(args, reflect.ValueOf(vars[string(vr)]))
 		} else {
 			args = append(args, reflect.ValueOf(av.Value))
 		}
 	}
 	return
+}
+
+// checkReflectArgs makes sure the method can be called with the arguments.
+// The arguments come from the request so a mismatch is an error for the
+// request and must not be a panic in reflect.Value.Call(). Integers and floats
+// are converted to the size the method expects and a null becomes the zero
+// value of a pointer, interface, map, or slice parameter.
+func checkReflectArgs(method *reflect.Value, args []reflect.Value) error {
+	mt := method.Type()
+	if mt.IsVariadic() {
+		return fmt.Errorf("%w: methods with variable arguments are not supported", ErrMeta)
+	}
+	if mt.NumIn() != len(args) {
+		return fmt.Errorf("%w: expected %d arguments but %d were provided", ErrMeta, mt.NumIn()-1, len(args)-1)
+	}
+	for i, a := range args {
+		pt := mt.In(i)
+		if !a.IsValid() {
+			switch pt.Kind() {
+			case reflect.Ptr, reflect.Interface, reflect.Map, reflect.Slice:
+				args[i] = reflect.Zero(pt)
+				continue
+			}
+			return fmt.Errorf("%w: argument %d is null or missing but must be a %s", ErrMeta, i, pt)
+		}
+		at := a.Type()
+		if at.AssignableTo(pt) {
+			continue
+		}
+		switch pt.Kind() {
+		case reflect.Int, reflect.Int8, reflect.Int16, reflect.Int32, reflect.Int64:
+			switch at.Kind() {
+			case reflect.Int, reflect.Int8, reflect.Int16, reflect.Int32, reflect.Int64:
+				args[i] = a.Convert(pt)
+				continue
+			}
+		case reflect.Float32, reflect.Float64:
+			switch at.Kind() {
+			case reflect.Float32, reflect.Float64:
+				args[i] = a.Convert(pt)
+				continue
+			}
+		}
+		return fmt.Errorf("%w: argument %d is a %s but must be a %s", ErrMeta, i, at, pt)
+	}
+	return nil
 }
 
 func (root *Root) resolveInline(
